@@ -285,31 +285,31 @@ func c03Loc(r *Run, l gts.Location, L, i, k int) {
 				Got: encLoc(got), Want: fmt.Sprintf("between-site %d", i), Guard: guard})
 		}
 	}
-	// an outer end whose residue was removed becomes partial (no ambiguous leaves: they carry no marker)
+	// an outer end whose residue was removed becomes partial (checked when the outer leaf
+	// itself survives with at least one residue; ambiguous leaves carry no marker)
 	if len(d) > 0 && len(want) > 0 && !hasAmbiguous(l) && nodup(d) {
-		lo0, hi0 := outerMarks(l)
-		lo1, hi1 := outerMarks(got)
-		ls0 := residueLeaves(l)
-		first, last := ls0[0], ls0[len(ls0)-1]
-		fs, _ := spanOf(first)
-		_, le := spanOf(last)
-		_, firstIsRange := first.(gts.Ranged)
-		_, lastIsRange := last.(gts.Ranged)
-		// only decidable when the outer leaves survive as the outer leaves
-		fd := mapDen(den(first), delMap(i, k))
-		ld := mapDen(den(last), delMap(i, k))
-		if firstIsRange && len(fd) > 0 {
-			wantLo := lo0 || (i <= fs && fs < i+k)
-			if lo1 != wantLo {
+		m50, m30 := outerMarks(l)
+		m51, m31 := outerMarks(got)
+		first, last, _ := outerLeaves(l)
+		removed := func(x int) bool { return i <= x && x < i+k }
+		if fr, ok := first.l.(gts.Ranged); ok && len(mapDen(den(first.l), delMap(i, k))) > 0 {
+			firstRes := fr.Start
+			if first.rev {
+				firstRes = fr.End - 1
+			}
+			if want5 := m50 || removed(firstRes); m51 != want5 {
 				r.fail(Failure{Oracle: "delete: 5' marker set iff the first residue was cut off (or was set)", Op: line,
-					Got: encLoc(got), Want: fmt.Sprintf("low marker %v", wantLo), Guard: guard})
+					Got: encLoc(got), Want: fmt.Sprintf("5' marker %v", want5), Guard: guard})
 			}
 		}
-		if lastIsRange && len(ld) > 0 {
-			wantHi := hi0 || (i <= le-1 && le-1 < i+k)
-			if hi1 != wantHi {
+		if lr, ok := last.l.(gts.Ranged); ok && len(mapDen(den(last.l), delMap(i, k))) > 0 {
+			lastRes := lr.End - 1
+			if last.rev {
+				lastRes = lr.Start
+			}
+			if want3 := m30 || removed(lastRes); m31 != want3 {
 				r.fail(Failure{Oracle: "delete: 3' marker set iff the last residue was cut off (or was set)", Op: line,
-					Got: encLoc(got), Want: fmt.Sprintf("high marker %v", wantHi), Guard: guard})
+					Got: encLoc(got), Want: fmt.Sprintf("3' marker %v", want3), Guard: guard})
 			}
 		}
 	}
